@@ -70,6 +70,10 @@ def extra(ctx, res):
         res.unknown("P-ABSENT", "TemporalHypergraph.subhypergraph", "h.add_node(node)", "add-if-absent", "no add_node call in the snapshot / window builders themselves (they may delegate)", "hypergraphx/core/temporal_hypergraph.py")
     with res.guard("check_filter_clientsctx, res, DEGREE:2"):
         check_filter_clients(ctx, res, DEGREE[:2])
+    with res.guard("general lint pack over the property's files"):
+        from ..lints import check_pack
+
+        check_pack(ctx, res, "C03")
     return res
 
 
